@@ -2,9 +2,11 @@
 //! boring reference models written from the property text and PostgreSQL's
 //! documentation, never from pgcat's code.
 
+pub mod c05;
 pub mod c06;
 pub mod c13;
 pub mod pghash;
+pub mod sqlgen;
 
 use std::panic::{catch_unwind, AssertUnwindSafe};
 
